@@ -3478,6 +3478,11 @@ fn validate_extension_declarations(
     extensions: Vec<ExpirationExtension2>,
 ) -> Result<ExtendExpirationsInner, ActorError> {
     let mut claim_space_by_sector = BTreeMap::<SectorNumber, (u64, u64)>::new();
+    // Sectors named by the declarations processed so far.
+    // The claim spaces below are recorded per sector for the whole message, and each claim's term
+    // is checked against the new expiration of the declaration that lists it, so a sector must be
+    // extended by exactly one declaration.
+    let mut declared_sectors = BitField::new();
 
     for decl in &extensions {
         let policy = rt.policy();
@@ -3490,10 +3495,45 @@ fn validate_extension_declarations(
             ));
         }
 
+        // A sector may have at most one claim entry in a declaration ...
+        let mut decl_sectors = BitField::new();
+        for sc in &decl.sectors_with_claims {
+            if decl_sectors.get(sc.sector_number) {
+                return Err(actor_error!(
+                    illegal_argument,
+                    "sector {} has more than one claim entry in a declaration",
+                    sc.sector_number
+                ));
+            }
+            decl_sectors.set(sc.sector_number);
+        }
+        // ... and may be named by at most one declaration of the message.
+        decl_sectors |= &decl.sectors;
+        if declared_sectors.contains_any(&decl_sectors) {
+            return Err(actor_error!(
+                illegal_argument,
+                "sectors {:?} are named by more than one declaration",
+                &declared_sectors & &decl_sectors
+            ));
+        }
+        declared_sectors |= &decl_sectors;
+
         for sc in &decl.sectors_with_claims {
             let mut drop_claims = sc.drop_claims.clone();
             let mut all_claim_ids = sc.maintain_claims.clone();
             all_claim_ids.append(&mut drop_claims);
+            // A claim may be listed only once for a sector: its space is counted per listing.
+            let mut listed_claims = BTreeSet::<ext::verifreg::ClaimID>::new();
+            for claim_id in &all_claim_ids {
+                if !listed_claims.insert(*claim_id) {
+                    return Err(actor_error!(
+                        illegal_argument,
+                        "claim {} is listed more than once for sector {}",
+                        claim_id,
+                        sc.sector_number
+                    ));
+                }
+            }
             let claims = get_claims(rt, &all_claim_ids)
                 .with_context(|| format!("failed to get claims for sector {}", sc.sector_number))?;
             let first_drop = sc.maintain_claims.len();
